@@ -214,7 +214,9 @@ theorem vstep_create (s : Store) (arg : Bytes) (now : Nat) : VStep s (s.create a
     · exact VStep.refl s
     · split
       · exact VStep.refl s
-      · exact VStep.trans (vstep_newBoxes now _ s) (vstep_newBox _ _ now)
+      · split
+        · exact VStep.refl s
+        · exact VStep.trans (vstep_newBoxes now _ s) (vstep_newBox _ _ now)
 
 theorem vstep_delete (s : Store) (arg : Bytes) : VStep s (s.delete arg).1 := by
   unfold Store.delete
@@ -232,24 +234,26 @@ theorem vstep_rename (s : Store) (o n : Bytes) (now : Nat) : VStep s (s.rename o
   · split
     · exact VStep.refl s
     · split
+      · exact VStep.refl s
       · split
-        · exact VStep.refl s
-        · split
-          · exact VStep.refl s
-          · rename_i ib hib
-            exact vstep_addBox s (fun b => if b.name = inboxName then { b with links := [] } else b) _ now _ _
-              (by intro b; by_cases h : b.name = inboxName <;> simp [h]) rfl
-      · split
-        · exact VStep.refl s
         · split
           · exact VStep.refl s
           · split
-            · refine VStep.trans (vstep_newBoxes now (ancestors (trimQuotes n)) s) ?_
-              have := vstep_mapBoxes (s.newBoxes (ancestors (trimQuotes n)) now)
-                (fun b => { b with name := renamedName (trimQuotes o) (trimQuotes n) b.name })
-                (s.newBoxes (ancestors (trimQuotes n)) now).log (s.newBoxes (ancestors (trimQuotes n)) now).subs (by intro b; simp)
-              simpa using this
-            · exact vstep_newBoxes now _ s
+            · exact VStep.refl s
+            · rename_i ib hib
+              exact vstep_addBox s (fun b => if b.name = inboxName then { b with links := [] } else b) _ now _ _
+                (by intro b; by_cases h : b.name = inboxName <;> simp [h]) rfl
+        · split
+          · exact VStep.refl s
+          · split
+            · exact VStep.refl s
+            · split
+              · refine VStep.trans (vstep_newBoxes now (ancestors (trimQuotes n)) s) ?_
+                have := vstep_mapBoxes (s.newBoxes (ancestors (trimQuotes n)) now)
+                  (fun b => { b with name := renamedName (trimQuotes o) (trimQuotes n) b.name })
+                  (s.newBoxes (ancestors (trimQuotes n)) now).log (s.newBoxes (ancestors (trimQuotes n)) now).subs (by intro b; simp)
+                simpa using this
+              · exact vstep_newBoxes now _ s
 
 theorem vstep_subscribe (s : Store) (a : Bytes) : VStep s (s.subscribe a).1 := by
   unfold Store.subscribe
